@@ -173,6 +173,26 @@ def c03_class(case, obs):
     return {"len": _len_class(len(rs)), "mw": case.get("mw", "?"), "transports": case.get("tr", "?"), "shed": case.get("sat", "?"),
             "notifies": str(notifies > 0), "answers": "+".join(sorted(groups)) or "none", "handler_ran": str(ran)}
 
+def c15_class(case, obs):
+    hooks = ".".join(case.get(k, "-") for k in ("pre", "post", "xh"))
+    first = obs.get("c0", obs.get("crash", "-"))
+    try:
+        nc = int(case.get("conns", "1"), 16)
+    except ValueError:
+        nc = 1
+    return {"mode": case.get("mode", "?"), "handshake": case.get("hs", "?"), "cause": case.get("cause", "?"),
+            "phase": case.get("phase", "?"), "registry": case.get("reg", "?"),
+            "hook_panic": str("p" in hooks.split(".")),
+            "conns": "1" if nc == 1 else (">=16" if nc >= 16 else "2..15"),
+            "parked_seen": first.rsplit("/", 1)[-1] if "/" in first else "-"}
+
+def c16_class(case, obs):
+    ev = case.get("ev", "-"); toks = obs.get("outs", obs.get("crash", "")).split(",")
+    n = 0 if ev == "-" else ev.count(";") + 1
+    return {"cap": case.get("cap", "?"), "mw": case.get("mw", "?"), "events": _len_class(n),
+            "refused_at_cap": str("s" in toks), "notify_dropped": str("d" in toks),
+            "panic": str(":p" in ev), "error_exit": str(":e" in ev), "inline": str(":i" in ev)}
+
 PROPS = {
     "C01": {
         "harness": "c01", "driver": "c01", "shards": 16,
@@ -208,7 +228,7 @@ PROPS = {
         "harness": "c18", "driver": "c18", "shards": 16,
         "classify": c18_class,
         "nontrivial": lambda cls: cls["alias_attached"] == "True",
-        "rule": "cases = every sequence of length 4 (quick) / 5 (thorough) over insert/remove/alias/broadcast on 3 peers x 3 keys (16 symbols), the same alphabet to depth 3/4 after a prefix that attaches three aliases, and random histories up to 300 ops over up to 6 peers x 6 keys; after every operation the full observable state (get, get_by, aliases_for, key_for, len) is recorded; distinct = distinct history; non-trivial = at least one alias was attached",
+        "rule": "cases = every sequence of length 4 (quick) / 5 (thorough) over insert/remove/alias/broadcast on 3 peers x 3 keys (16 symbols), the same alphabet to depth 3/4 after a prefix that attaches three aliases, every re-entrant alias (an operation performed during the alias call's key conversion) after every short history, and random histories up to 300 ops over up to 6 peers x 6 keys; after every operation the full observable state (get, get_by, aliases_for, key_for, len) is recorded; plus concurrent histories (750 quick / 7500 thorough: 2-4 threads x 1-4 operations from insert/remove/alias/broadcast and the queries get/get_by/aliases_for/key_for/len on one shared registry, one third random contended mixes and two thirds round-synchronised duels of alias against remove/re-insert of the same peer, half of them with a slow key conversion), every operation stamped with a global logical clock at invocation and response; the driver searches (Wing-Gong, state-memoised) for an order respecting real time whose results under the extracted specification equal every observed result and whose final state equals the observed final state; distinct = distinct history; non-trivial = at least one alias was attached",
         "timeout_s": {"quick": 600, "thorough": 3000},
     },
     "C19": {
@@ -271,6 +291,19 @@ PROPS = {
         "harness": "c03", "driver": "c03", "shards": 4, "harness_shards": 8,
         "classify": c03_class, "nontrivial": lambda cls: cls["handler_ran"] == "True",
         "rule": "cases = pipelines (quick <=16, thorough <=64 requests) of hand-built frames over the product version {1,0,2,255,100} x query-format code {1,0,2,0xffff,0x101} x UTF-8/non-UTF-8 queries x 15 routes (json, typed, json-ctx, typed-ctx each inline and _blocking, with_handler adapter, typed slice, typed slice ref, erased inline/off-reader, registry mount with two callables, struct mount) and 12 unregistered paths x body-format codes {0,1,2,3,unknown} x body encodings (JSON, BEVE, typed/aligned slices, generic empty array, truncated, garbage, empty, mismatched announcement) x notify byte {0,1,2,0x80,0xff} x middleware refusal, with and without a registered middleware, sent to blocking TCP, async TCP and WebSocket servers; plus WebSocket-only pipelines with panicking off-reader handlers and with the off-reader permit pool (limit 1) held by a gated handler; a hidden sync request ends each pipeline, then a 150 ms grace detects extra frames; distinct = distinct case line; non-trivial = at least one user function ran",
+        "timeout_s": {"quick": 900, "thorough": 3400},
+    },
+    "C15": {
+        "harness": "c15", "driver": "c15", "shards": 4, "harness_shards": 4,
+        "classify": c15_class, "nontrivial": lambda cls: cls["handshake"] == "ok",
+        "rule": "cases = {serve_listener, serve_listener_with_graceful_drain, SharedWebSocketServer::accept(+_with_handshake)+serve_connection(+_with_cancel/_with_handshake), hand-rolled 101 + adopt_upgraded} x exit cause {clean close, socket loss, text frame, oversized frame, non-REPE binary frame, inline handler panic, embedder/shutdown token cancel, drain-deadline / task abort} x phase {idle, inline handler blocked, off-reader handler parked polling is_cancelled, outbound queue blocked on a slow peer, inside a blocking connect hook} with random hook configurations (counting / notifying / sleeping / alias-attaching hooks before and after with_peer_registry, handshake-aware hooks, 1..4 disconnect hooks around the registry's), plus a panicking connect hook at each position class and failed handshakes (garbage, wrong path, HTTP without upgrade); 1..4 (quick) / 1..32 (thorough) concurrent connections; per connection: callbacks ordered by a global sequence counter with registry.get/get_by sampled inside, registry after, frames seen by a raw tungstenite peer up to the first response, cancellation seen by the parked handler; distinct = distinct case; non-trivial = handshake succeeded",
+        "timeout_s": {"quick": 900, "thorough": 3400},
+    },
+    "C16": {
+        "harness": "c16", "driver": "c16", "shards": 2, "harness_shards": 16,
+        "classify": c16_class,
+        "nontrivial": lambda cls: cls["refused_at_cap"] == "True" or cls["notify_dropped"] == "True" or cls["panic"] == "True",
+        "rule": "cases = scripted histories on one live WebSocket connection with with_offreader_limit(cap), cap 1..3 and unlimited (quick) / 1..16 and unlimited (thorough), 0..2 middlewares: for cap <= 3 every release order x every exit kind {return, error, panic}^cap x every notify pattern (sampled 1/17 in quick), each with 4 x cap parked requests over the json/typed/ctx blocking routes, inline requests and notifies interleaved during saturation, optional refill after each exit, a fresh batch of cap (+1 refused) after all exits and a final inline call; random release orders for larger caps; random walks of 5..120 events; handlers park on per-request channels and keep an atomic gauge; a raw tungstenite peer with hand-built frames waits for the effect of every event; distinct = distinct script; non-trivial = a request was refused or dropped at the cap, or a handler panicked",
         "timeout_s": {"quick": 900, "thorough": 3400},
     },
 }
